@@ -14,7 +14,8 @@ FUNCTIONS = ['uxarray.io._mpas._replace_padding',
     'uxarray.io._mpas._parse_face_edges@primal',
     'uxarray.io._mpas._parse_face_edges@dual',
     'uxarray.io._mpas._parse_edge_faces@primal',
-    'uxarray.io._mpas._parse_edge_faces@dual']
+    'uxarray.io._mpas._parse_edge_faces@dual',
+    'uxarray.grid.coordinates._set_desired_longitude_range']
 STANDINS = ["readers"]
 ASSUMPTIONS = []
 EXPLANATION = ""
